@@ -902,6 +902,85 @@ func init() {
 		Exec: vfCExec(c4v), MaxDepth: func(th bool) int { return c4v(th).Depth }}
 }
 
+// vfCPrefixReelected: a leads term 1; c hears nothing from a, stands for term 2 and wins with a's
+// vote (its request to b is lost); a in turn stands for term 3 and wins with c's vote (its request to
+// b is lost again). b has taken part in neither election: it still knows a as the leader of term 1.
+// The search starts from there: the next health check of a tells b about term 3.
+func vfCPrefixReelected(w *vfCWorld) {
+	a, b, c := w.names[0], w.names[1], w.names[2]
+	idx := func(n string) int {
+		for i, x := range w.names {
+			if x == n {
+				return i
+			}
+		}
+		return -1
+	}
+	settle := func(lose func(m *vfCMsg) bool) {
+		for guard := 0; guard < 100 && len(w.inflight) > 0; guard++ {
+			progressed := false
+			for k, m := range w.inflight {
+				if m.phase == 1 {
+					continue
+				}
+				if m.phase == 0 && lose != nil && lose(m) {
+					w.apply(vfCOp{Kind: "lose", Slot: k})
+				} else {
+					w.apply(vfCOp{Kind: "deliver", Slot: k})
+				}
+				progressed = true
+				break
+			}
+			if !progressed {
+				break
+			}
+		}
+	}
+	state := func() string {
+		var out []string
+		for _, n := range w.names {
+			out = append(out, fmt.Sprintf("%s: term=%d leader=%q", n, w.nodes[n].fo.term, w.nodes[n].fo.leader))
+		}
+		return strings.Join(out, "; ")
+	}
+	for i := 0; i < 3; i++ {
+		w.apply(vfCOp{Kind: "tick", Node: idx(a)})
+		settle(nil)
+	}
+	if w.nodes[a].fo.leader != a || w.nodes[b].fo.leader != a || w.nodes[c].fo.leader != a {
+		vsched.Fail("harness", "prefix 1: a does not lead everybody: "+state())
+	}
+	toB := func(m *vfCMsg) bool { return m.to == b }
+	for i := 0; i < 6 && w.nodes[c].fo.leader != c; i++ {
+		w.apply(vfCOp{Kind: "tick", Node: idx(c)})
+		settle(toB)
+	}
+	if w.nodes[c].fo.leader != c || w.nodes[b].fo.leader != a || w.nodes[b].fo.term != w.nodes[c].fo.term-1 {
+		vsched.Fail("harness", "prefix 2: c did not win the second term behind b's back: "+state())
+	}
+	for i := 0; i < 6 && w.nodes[a].fo.leader != a; i++ {
+		w.apply(vfCOp{Kind: "tick", Node: idx(a)})
+		settle(toB)
+	}
+	if w.nodes[a].fo.leader != a || w.nodes[a].fo.term <= w.nodes[c].fo.term-1 || w.nodes[b].fo.leader != a || w.nodes[b].fo.term >= w.nodes[a].fo.term {
+		vsched.Fail("harness", "prefix 3: a was not re-elected behind b's back: "+state())
+	}
+}
+
+func init() {
+	n3 := []string{"a", "b", "c"}
+	c3r := func(th bool) vfCConfig {
+		if th {
+			return vfCConfig{Names: n3, MaxTerm: 4, Budget: 2, Depth: 200, Prefix: vfCPrefixReelected}
+		}
+		return vfCConfig{Names: n3, MaxTerm: 4, Budget: 1, Depth: 200, Prefix: vfCPrefixReelected}
+	}
+	ops3 := vfCOps(3)
+	vfXModels["c17n3r"] = &vfXModel{Name: "c17n3r", NumOps: len(ops3), OpName: func(i int) string { return ops3[i].name(n3) },
+		Exec: vfCExec(c3r), MaxDepth: func(th bool) int { return c3r(th).Depth }}
+}
+
+func TestVerifC17Reelected3(t *testing.T) { vfXSearch(t, "C17", "reelected3", "c17n3r") }
 func TestVerifC17Split4(t *testing.T)    { vfXSearch(t, "C17", "split4", "c17n4v") }
 func TestVerifC17Excluded3(t *testing.T) { vfXSearch(t, "C17", "excluded3", "c17n3s") }
 func TestVerifC17Excluded4(t *testing.T) { vfXSearch(t, "C17", "excluded4", "c17n4s") }
